@@ -999,8 +999,8 @@ def run(ctx):
     ss = send_specs(ctx, rng)
     rs = recv_specs(ctx, rng)
     if ctx.quick:
-        ss = rng.sample(ss, 1200)
-        rs = rng.sample(rs, 1200)
+        ss = rng.sample(ss, 600)
+        rs = rng.sample(rs, 600)
     # thorough: the complete grids
     specs = []
     for kind, items in (("send", ss), ("recv", rs), ("stale", stale_specs(ctx))):
